@@ -808,6 +808,23 @@ func c06Scenarios(tier string) []*ConcScenario {
 			scs = append(scs, sc)
 		}
 	}
+	// the file being appended to ends in a freed record, and the caller's Puts
+	// during the cycle fill it and roll over inside the write pool (36-byte
+	// limit = two 12-byte records + room for one more): what the collector
+	// takes for "files that are complete" is decided while records for the
+	// current file are still pending
+	{
+		c := cfg("mh", false, 8, 48, 36)
+		in := namedInit{"G5-free-tail-in-current-file", []Op{P(0, 1), P(1, 1), opF, R(1), opF}}
+		for _, cl := range [][]Op{{P(1, 2), P(3, 1)}, {P(1, 2), P(3, 1), opF}} {
+			ths := [][]Op{{{Kind: OpPriGC, A: 0}}, cl}
+			sc := &ConcScenario{Prop: "C06", Cfg: c, Init: in.ops, Threads: ths, Bound: bound, Exec: execStore,
+				Extra: map[string]any{"final": reopenFinal}}
+			sc.Name = fmt.Sprintf("c06/%s/%s/%s", c.String(), in.name, progString(ths))
+			sc.Desc = fmt.Sprintf("init %s [%s]; %s", in.name, opsString(in.ops), progString(ths))
+			scs = append(scs, sc)
+		}
+	}
 	for _, c := range cfgs {
 		for _, in := range inits {
 			for _, gc := range gcs {
